@@ -10,9 +10,9 @@ PID = 'C20'
 # (mode, depth, seeds) per tier
 PLAN = {
     'quick': [('table', 5, [0, 33, 34, 35, 36]), ('btree', 7, [0, 9, 20]), ('priq', 8, [0, 5]),
-              ('bitv', 0, [0]), ('dnf', 2, [0]), ('dnf10', 0, [0])],
+              ('bitv', 0, [0]), ('dnf', 3, [0]), ('dnf10', 0, [0])],
     'thorough': [('table', 6, [0, 33, 34, 35, 36]), ('btree', 9, [0, 9, 20]), ('priq', 10, [0, 5]),
-                 ('bitv', 0, [0]), ('dnf', 2, [0]), ('dnf10', 0, [0])],
+                 ('bitv', 0, [0]), ('dnf', 3, [0]), ('dnf10', 0, [0])],
 }
 SHARDED = {'table', 'btree', 'priq', 'dnf'}
 
@@ -56,12 +56,15 @@ def main(tier):
             pm = permode.setdefault(mode, {'sequences': 0, 'steps': 0, 'outcomes': 0, 'depth': depth, 'seeds': set()})
             pm['sequences'] += a; pm['steps'] += bb; pm['outcomes'] += c; pm['seeds'].add(seed)
             tot['sequences'] += a; tot['steps'] += bb; tot['outcomes'] += c
+        for km in re.finditer(r'^KNOWN mode=(\S+) cause=(\S+) count=(\d+) first=(.*)$', text, re.M):
+            # wrong results that the simulation of the recorded defect reproduces exactly
+            ck.report('module=dnf,cause=%s' % km.group(2), 'e.g. ' + km.group(4)[:300])
         if r.timeout:
             ck.cut('%s depth %d seed %d shard %d timed out' % (mode, depth, seed, s))
             continue
         if viols or r.rc != 0 or not stat:
             kinds = sorted(set(re.findall(r'kind=(\S+)', '\n'.join(viols)))) or ['harness-exit-%s' % r.rc]
-            key = 'module=%s kind=%s' % (mode, '+'.join(kinds[:3]))
+            key = 'module=%s,kind=%s' % (mode, '+'.join(kinds[:3]))
             ops = seqs[0][2] if seqs else ''
             m = re.search(r'kind=crash.*ops=(\S*)', text)
             if m:
